@@ -24,6 +24,9 @@ type pnode struct {
 	Child felt.Felt
 	Path  *big.Int
 	Len   int
+	// ValChild: when the node set is rebuilt for core/trie2 the edge's child is typed as a value
+	// (a decoder decides the child's type; a hostile sender can make it say either)
+	ValChild bool
 }
 
 // pentry = one (node_hash -> node) mapping entry.
@@ -268,7 +271,12 @@ func toTrie2(p nproof, root *felt.Felt) *trie2.ProofNodeSet {
 			continue
 		}
 		pf := new(felt.Felt).SetBigInt(e.N.Path)
-		ps.Put(e.Key, &trienode.EdgeNode{Child: ref(e.N.Child, d+e.N.Len), Path: new(trieutils.Path).SetFelt(uint8(e.N.Len), pf)})
+		child := ref(e.N.Child, d+e.N.Len)
+		if e.N.ValChild {
+			v := trienode.ValueNode(e.N.Child)
+			child = &v
+		}
+		ps.Put(e.Key, &trienode.EdgeNode{Child: child, Path: new(trieutils.Path).SetFelt(uint8(e.N.Len), pf)})
 	}
 	return ps
 }
